@@ -144,6 +144,19 @@ func (c *UDPConn) ReadFrom(p []byte) (n int, addr net.Addr, err error) {
 			}
 		}
 
+		// A deadline that has passed fails the read even when a datagram is waiting: the
+		// select below would pick among the ready channels at random.
+		select {
+		case <-c.readDeadline.Done():
+			return 0, nil, &net.OpError{
+				Op:   "read",
+				Net:  c.LocalAddr().Network(),
+				Addr: c.LocalAddr(),
+				Err:  newTimeoutError("i/o timeout"),
+			}
+		default:
+		}
+
 		select {
 		case ibData := <-c.readCh:
 			n := copy(p, ibData.data)
